@@ -349,6 +349,15 @@ type c07Multi struct {
 	ns    []*c07MNode
 	cur   int
 	mem   int64
+	memBy map[int]int64 // extension 6: memory size per GPU MINOR (the same on every node) when the GPUs of a node differ in size
+}
+
+// the triple a pod holding `amount` percent of GPU `minor` is recorded with: bytes are a share of THAT device's memory
+func (m *c07Multi) fracOn(minor int, amount int64) c07Vec {
+	if T, ok := m.memBy[minor]; ok {
+		return c07Vec{amount, amount * T / 100, amount}
+	}
+	return m.frac(amount)
 }
 
 func (m *c07Multi) sel(i int) *c07MNode {
@@ -483,6 +492,10 @@ func (m *c07Multi) cycle(sp *c07CycleSpec) (bool, bool) {
 	podReq := corev1.ResourceList{
 		apiext.ResourceGPUCore:        *resource.NewQuantity(amount*int64(cnt), resource.DecimalSI),
 		apiext.ResourceGPUMemoryRatio: *resource.NewQuantity(amount*int64(cnt), resource.DecimalSI),
+	}
+	if cnt > 1 && amount < 100 {
+		// a fraction of each of cnt GPUs: the count comes from gpu.shared
+		podReq[apiext.ResourceGPUShared] = *resource.NewQuantity(int64(cnt), resource.DecimalSI)
 	}
 	pod := c07Pod(id, nil, "")
 	pod.UID = types.UID(fmt.Sprintf("uid-%d", id))
@@ -791,6 +804,9 @@ func (m *c07Multi) cycle(sp *c07CycleSpec) (bool, bool) {
 			if req[k] >= 0 && a.vec[k] != req[k] {
 				h.Fail("C07:alloc-unsound:amount", "GPU %d committed %v, per-GPU request %v", a.minor, a.vec, req)
 			}
+			if k == 0 && !c07MemPairCheck(h, fmt.Sprintf("pod %d (%d GPU x %v) on node %d", id, cnt, req, x), a.minor, req, a.vec, row.t[1], before.rows[[2]int{0, a.minor}] != nil && before.rows[[2]int{0, a.minor}].tp[1] && before.rows[[2]int{0, a.minor}].tp[2]) {
+				break
+			}
 			if a.vec.val(k) > free[k] {
 				fp := "C07:reserve-device-not-free"
 				if sp.overOn[[2]int{x, a.minor}] {
@@ -811,6 +827,9 @@ func (m *c07Multi) cycle(sp *c07CycleSpec) (bool, bool) {
 				h.Fail("C07:reserve-outside-designation", "pod %d is designated to GPUs %v, Reserve committed GPU %d", id, des, a.minor)
 			}
 		}
+	}
+	if !designated && len(g[0]) > 0 {
+		c07FillObs(h, g[0], req) // extension 6: the filled amounts are modelled (fillGPU on the selected node's totals)
 	}
 	h.Op("add %d %s", id, g.tok())
 	for _, tt := range g.types() {
@@ -1100,6 +1119,15 @@ func TestVerifC07Designated(t *testing.T) {
 			h.Tag("stream:gpu+rdma-joint")
 		}
 		m := c07NewMulti(t, h, r, pl, podTx, nodes, names, nn, mem)
+		// extension 6, 1 case in 3 (VERIF_C07_MIXMEM=1: every case, =0: never): the GPUs of a node have DIFFERENT memory sizes
+		// (per minor, the same on every node: a designation names minors), and half of the pods ask for two GPUs
+		mixed := os.Getenv("VERIF_C07_MIXMEM") == "1" || (os.Getenv("VERIF_C07_MIXMEM") != "0" && r.Chance(1, 3))
+		if mixed {
+			h.Tag("stream:mixed-memory-sizes")
+			sizes := []int64{16 << 30, 32 << 30, 80 << 30}
+			off := r.Intn(3)
+			m.memBy = map[int]int64{0: sizes[off%3], 1: sizes[(off+1+r.Intn(2))%3], 2: int64(r.Pick(sizes))}
+		}
 		ns := m.ns
 		nextPod := 1
 		for i := 0; i < nn; i++ {
@@ -1118,7 +1146,11 @@ func TestVerifC07Designated(t *testing.T) {
 			// the same minors on every node (a designation names minors, not nodes)
 			ng := r.Range(2, 3)
 			for mi := 0; mi < ng; mi++ {
-				base.inv[0] = append(base.inv[0], c07Dev{minor: mi, healthy: !r.Chance(1, 12), res: c07Vec{100, mem, 100}, numa: -1})
+				dm := mem
+				if mixed {
+					dm = m.memBy[mi]
+				}
+				base.inv[0] = append(base.inv[0], c07Dev{minor: mi, healthy: !r.Chance(1, 12), res: c07Vec{100, dm, 100}, numa: -1})
 			}
 			m.sel(i).applyInventory(false)
 		}
@@ -1131,7 +1163,7 @@ func TestVerifC07Designated(t *testing.T) {
 			}
 			id := nextPod
 			nextPod++
-			m.sel(nd.idx).doAddOn(id, c07Groups{0: {{minor: d.minor, vec: m.frac(int64(r.Pick([]int64{30, 50, 100, 100})))}}})
+			m.sel(nd.idx).doAddOn(id, c07Groups{0: {{minor: d.minor, vec: m.fracOn(d.minor, int64(r.Pick([]int64{30, 50, 100, 100})))}}})
 		}
 
 		cycles := r.Range(1, 3)
@@ -1141,6 +1173,9 @@ func TestVerifC07Designated(t *testing.T) {
 			nextPod++
 			if r.Chance(1, 4) {
 				sp.cnt, sp.amount = 2, 100
+			} else if mixed && r.Chance(1, 2) {
+				sp.cnt = 2 // two GPUs of different sizes, whole or a fraction of each (gpu.shared 2)
+				h.Tag("cycle:mixed-two-gpus")
 			}
 			sp.joint = jointCase && r.Bool()
 			if sp.joint { // whole GPUs + a share of one RDMA device
@@ -1153,7 +1188,7 @@ func TestVerifC07Designated(t *testing.T) {
 			if sp.hasAnn {
 				pm := r.Perm(2)
 				for i := 0; i < sp.cnt; i++ {
-					sp.des = append(sp.des, c07Alloc{minor: pm[i], vec: m.frac(sp.amount)})
+					sp.des = append(sp.des, c07Alloc{minor: pm[i], vec: m.fracOn(pm[i], sp.amount)})
 				}
 				sort.Slice(sp.des, func(i, j int) bool { return sp.des[i].minor < sp.des[j].minor })
 				if sp.joint {
@@ -1175,7 +1210,7 @@ func TestVerifC07Designated(t *testing.T) {
 					d := nd.inv[0][r.Intn(len(nd.inv[0]))]
 					oid := nextPod
 					nextPod++
-					m.sel(nd.idx).doAddOn(oid, c07Groups{0: {{minor: d.minor, vec: m.frac(int64(r.Pick([]int64{50, 100, 100})))}}})
+					m.sel(nd.idx).doAddOn(oid, c07Groups{0: {{minor: d.minor, vec: m.fracOn(d.minor, int64(r.Pick([]int64{50, 100, 100})))}}})
 					h.Tag("cycle:event-between:pod-add")
 				}
 			}
